@@ -250,6 +250,12 @@ def _second_order_integral(E: ndarray, eigvals: ndarray, dt: float,
     return int_buf
 
 
+def _identity_element_index(basis: Basis) -> ndarray:
+    """Index of the element with nonzero trace of a 'traceless' basis."""
+    trace = util.remove_float_errors(np.einsum('...jj', basis.view(ndarray)), basis.d**2)
+    return np.atleast_1d(trace).nonzero()[0] if basis.istraceless else np.array([], dtype=int)
+
+
 def _get_integrand(
         spectrum: ndarray,
         omega: ndarray,
@@ -2104,6 +2110,15 @@ def infidelity(
             filter_function = pulse.get_filter_function(omega, which='fidelity',
                                                         show_progressbar=show_progressbar,
                                                         cache_intermediates=cache_intermediates)
+            # The component of a noise operator along the identity element of
+            # the basis does not contribute to the infidelity (trace tensor
+            # term of eq. (39) for a traceless basis).
+            identity_idx = _identity_element_index(pulse.basis)
+            if identity_idx.size:
+                control_matrix = pulse.get_control_matrix(omega)[:, identity_idx]
+                filter_function = filter_function - np.einsum('ako,bko->abo',
+                                                              control_matrix.conj(),
+                                                              control_matrix)
     else:
         # which == 'correlations'
         if pulse.is_cached('omega') and not np.array_equal(pulse.omega, omega):
@@ -2111,6 +2126,13 @@ def infidelity(
                              + 'but omega not equal to cached frequencies.')
 
         filter_function = pulse.get_pulse_correlation_filter_function()
+        identity_idx = _identity_element_index(pulse.basis)
+        if identity_idx.size and pulse.is_cached('control_matrix_pc'):
+            # See above
+            control_matrix = pulse.get_pulse_correlation_control_matrix()[:, :, identity_idx]
+            filter_function = filter_function - np.einsum('gako,hbko->ghabo',
+                                                          control_matrix.conj(),
+                                                          control_matrix)
 
     integrand = _get_integrand(spectrum, omega, idx, which, 'fidelity',
                                filter_function=filter_function)
